@@ -14,7 +14,8 @@ EXPLANATION = (
     "same write access as the increment, and every track added to the store carries an id drawn from that counter; "
     "(R01.4) each record is read back from the store under the id chosen in that iteration (new id or winner). "
     "(R01.8) a track is awarded to at most one detection per call: the best-fit claim set records awarded tracks, the positional assignment is one-to-one; (R01.7) who-may-write rows for histories and track length."
-    " (R01.9) own coverage of the length and echo clauses: optimize() performs exactly one history step per detection (track_length += 1), and the box make_prediction reports - the one kept for the next association and echoed for a continued track - is the conversion of the updated filter state with nothing but the observation's confidence written afterwards.")
+    " (R01.9) own coverage of the length and echo clauses: optimize() performs exactly one history step per detection (track_length += 1), and the box make_prediction reports - the one kept for the next association and echoed for a continued track - is the conversion of the updated filter state with nothing but the observation's confidence written afterwards."
+    " (R01.10) what the caller submits is what the tracker sees: the observation constructor stores box, custom id, feature and quality unchanged (a None produced by a predicate instead of the parameter's own None is reported), and a batch files every detection under its own scene id.")
 NOT_DECIDED = ["that two detections never share a track within one call (follows from the assignment algorithms: "
                "C02 R02.2 / C17 R17.4 decide the structural part)", "concrete boxes and epochs for concrete inputs"]
 ASSUMPTIONS = ["std iterators preserve order as documented", "rustc nightly MIR construction", "panics out of scope"]
